@@ -807,31 +807,44 @@ fn run_case(line: &str) -> String {
         None => return "I INVALID | V INVALID".to_string(),
     };
     let ex = exec(&case.data, &case.sched, &case.ops);
-    // The size of the slice handed to the first `read` call is the real BUF_SIZE. It must equal the value
-    // extracted from reader.rs by checks/C08.py (`--buf`), which is what the generated boundary cases and the
-    // model use. The BUF in the case header only parametrises the model (corpus lines may carry another
-    // value: by `delivery_independent` the results do not depend on it).
-    if let (Some(room), Some(b)) = (ex.first_room, EXPECTED_BUF.get().copied().flatten()) {
-        if room != b {
-            return out1(&format!("buf-mismatch:{}", room));
-        }
+    let mut raw = join_results(&ex.results);
+    // The independent oracle answers exactly the operations inside the property's domain (valid integer tokens in
+    // range, no token / char read when nothing is left) and gives up at the first one outside it. The VIEW is the
+    // implementation's results for that in-domain prefix, ` ~` if the script goes on outside the domain (the driver
+    // prints the same mark); results outside the domain stay in RAW only (compared with the model, not the spec).
+    let orc = oracle_run(&case.data, &case.ops);
+    let n_dom = orc.len();
+    let n_view = n_dom.min(ex.results.len());
+    let mut view = join_results(&ex.results[..n_view]);
+    if n_dom < case.ops.len() {
+        view.push_str(" ~");
     }
-    let raw = join_results(&ex.results);
-    let mut view = raw.clone();
+    // delivery independence, without pinning values: the same script under the one-big-read schedule must give the
+    // same results up to and including the first out-of-domain operation (after a `char` read past the end the
+    // release build exposes stale buffer contents, so later results are not compared).
     if !case.sched.is_empty() {
         let ex2 = exec(&case.data, &[], &case.ops);
-        let raw2 = join_results(&ex2.results);
-        if raw2 != raw {
+        let m1 = (n_dom + 1).min(ex.results.len());
+        let m2 = (n_dom + 1).min(ex2.results.len());
+        if ex.results[..m1] != ex2.results[..m2] {
             view.push_str(" !sched:");
-            view.push_str(&raw2);
+            view.push_str(&join_results(&ex2.results[..m2]));
         }
     }
-    let orc = oracle_run(&case.data, &case.ops);
     let n_impl = if ex.panicked { ex.results.len() - 1 } else { ex.results.len() };
     let n = n_impl.min(orc.len());
     if ex.results[..n] != orc[..n] {
         view.push_str(" !oracle:");
         view.push_str(&join_results(&orc));
+    }
+    // The size of the slice handed to the first `read` call is the real BUF_SIZE. It should equal the value extracted
+    // from reader.rs by checks/C08.py (`--buf`), which the generated boundary cases and the model use. It is not an
+    // API observable of the property, so a mismatch is shown in RAW only (correspondence drift, never a counterexample).
+    // The BUF in the case header only parametrises the model (corpus lines may carry another value).
+    if let (Some(room), Some(b)) = (ex.first_room, EXPECTED_BUF.get().copied().flatten()) {
+        if room != b {
+            raw.push_str(&format!(" buf-mismatch:{}", room));
+        }
     }
     out2(&raw, &view)
 }
